@@ -22,10 +22,14 @@ The property is a statement about ~6 kLoC of Rust (five era validators and `util
   (`lib/scan_panics_c33.py`); `panic_sites_all_audited` holds only while every syntactic panic site has an entry in the
   audited allow-list `lib/panic_audit_C33.json`.
 
+* the script / datum / redeemer / minting-policy / language / metadata / script-integrity rules have no partial operation in
+  their own code (`script_rule_sites_benign`, from the inventory); as total functions of observations they are in
+  `Model/Rules.lean` (C38).
+
 What is **not** modelled (decided by search only: stream `valtotal`, mutated fixtures and synthesized extremes under
-`catch_unwind`): UTxO look-ups and address decoding, script / datum / redeemer / language / metadata / script-integrity
-rules, certificates, the Byron witness rule, and everything the validators call in `pallas-traverse`,
-`pallas-addresses`, `pallas-primitives` and `pallas-codec`.
+`catch_unwind`): UTxO look-ups and address decoding, the hashing / encoding those rules call, certificates, the Byron
+witness rule, and everything the validators call in `pallas-traverse`, `pallas-addresses`, `pallas-primitives` and
+`pallas-codec`.
 -/
 namespace PallasVerif.Props.C33
 open PallasVerif
@@ -35,6 +39,23 @@ open PallasVerif
 theorem panic_sites_all_audited : Gen.PanicSitesC33.unaudited = [] := by decide
 theorem all_anchored_files_scanned : Gen.PanicSitesC33.filesScanned = Gen.PanicSitesC33.filesExpected := by decide
 theorem inventory_nonempty : 40 ≤ Gen.PanicSitesC33.sites.length := by decide
+
+/-- the functions that make up the script, datum, redeemer, minting-policy, language and script-integrity rules (stated as
+    total functions of the observations in `Model/Rules.lean`, C38) -/
+def scriptRuleFns : List String :=
+  ["check_minting", "check_witness_set", "check_witnesses", "check_needed_scripts", "check_needed_scripts_are_included", "check_datums",
+   "check_input_datum_hash_in_witness_set", "check_datums_from_witness_set_in_inputs_or_outputs", "check_redeemers",
+   "mk_plutus_script_redeemer_pointers", "redeemer_pointers_coincide", "check_languages", "tx_languages", "available_langs", "allowed_langs",
+   "block_langs", "compute_all_outputs", "check_script_data_hash", "cost_model_cbor", "cost_model_for_tx", "get_script_hash_from_reference_input",
+   "get_reference_script_hashes", "check_well_formedness", "check_auxiliary_data", "check_metadata"]
+
+/-- every syntactic panic site inside those functions is `KeepRaw::unwrap` / `CborWrap::unwrap` (a method named `unwrap`, no
+    panic) or the infallible `Vec` encoder of `cost_model_cbor`: their own code has no partial operation, so their totality
+    rests on the callee crates only (searched, not proved) -/
+theorem script_rule_sites_benign :
+    (Gen.PanicSitesC33.sites.filter (fun s => scriptRuleFns.contains s.2.1)).all
+      (fun s => s.2.2.2 == "method-named-unwrap" || s.2.2.2 == "infallible") = true := by decide
+theorem script_rule_sites_nonempty : 5 ≤ (Gen.PanicSitesC33.sites.filter (fun s => scriptRuleFns.contains s.2.1)).length := by decide
 
 /-! ## Execution units, fee, size -/
 
@@ -247,6 +268,21 @@ theorem collateral_balance_total (conway legacy : Bool) (ins : List Value.Value)
       · split
         · split <;> simp
         · simp
+
+/-- **`check_collaterals` (number, then assets) never panics**: the count check discharges the non-emptiness that
+    Conway's `first().unwrap()` needs — no hypothesis about the list is left -/
+theorem collateral_rule_total (conway legacy : Bool) (maxInputs : Nat) (ins : List Value.Value) (ret : Option Value.Value)
+    (fee pct : Nat) (total : Option Nat)
+    (hins : ∀ v ∈ ins, coinV v ≤ Value.U64_MAX) (hret : ∀ r, ret = some r → 0 ≤ coinV r)
+    (hf : fee ≤ U64_MAX) (hc : pct ≤ U32_MAX) :
+    collateralRule conway legacy maxInputs ins ret fee pct total ≠ .panic := by
+  unfold collateralRule
+  split
+  · simp
+  · rename_i hne
+    split
+    · simp
+    · exact collateral_balance_total conway legacy ins ret fee pct total (fun _ h => by simp [h] at hne) hins hret hf hc
 
 /-- **Alonzo `check_collaterals_assets` never panics** (products in `u128`) -/
 theorem collateral_alonzo_total (fee pct : Nat) (hf : fee ≤ U64_MAX) (hc : pct ≤ U32_MAX) :
@@ -547,6 +583,7 @@ structure TxView (H : Type) where
   collateralReturn : Option Value.Value
   legacyReturn : Bool
   totalCollateral : Option Nat
+  maxCollateralInputs : Nat
   collateralPercentage : Nat
   outputs : List (Nat × Nat)          -- (lovelace, value size in words) of each output
   coinsPerUnit : Nat
@@ -570,7 +607,6 @@ structure InRange {H : Type} (v : TxView H) : Prop where
   fee : v.fee ≤ PhaseOneArith.U64_MAX
   collIns : ∀ x ∈ v.collateralIns, PhaseOneArith.coinV x ≤ Value.U64_MAX
   collRet : ∀ r, v.collateralReturn = some r → 0 ≤ PhaseOneArith.coinV r
-  collNonEmpty : v.conway = true → v.collateralIns ≠ []      -- `check_collaterals_number` runs first
   pct : v.collateralPercentage ≤ PhaseOneArith.U32_MAX
   coins : v.coinsPerUnit ≤ PhaseOneArith.U32_MAX
   words : ∀ o ∈ v.outputs, o.2 + v.overhead ≤ 2147483648
@@ -581,7 +617,7 @@ def modelledRules {H : Type} [DecidableEq H] (hash : Witness.Bytes → H) (verif
     (v : TxView H) : List Verdict :=
   [ ofFee (FeeSize.checkMinFee v.fee v.minfeeA v.minfeeB (FeeSize.validatorSize v.parts)),
     ofColl (if v.alonzoEra then PhaseOneArith.collateralAlonzo v.fee v.collateralPercentage v.collateralIns
-            else PhaseOneArith.collateralBalance v.conway v.legacyReturn v.collateralIns v.collateralReturn v.fee v.collateralPercentage v.totalCollateral),
+            else PhaseOneArith.collateralRule v.conway v.legacyReturn v.maxCollateralInputs v.collateralIns v.collateralReturn v.fee v.collateralPercentage v.totalCollateral),
     ofValue (if v.conway then Value.checkPreservationConway v.spent v.produced v.fee v.mint
              else Value.checkPreservation v.spent v.produced v.fee v.mint) ]
   ++ v.outputs.map (fun o => ofArith (PhaseOneArith.checkMinLovelace o.1 v.coinsPerUnit o.2 v.overhead))
@@ -605,10 +641,10 @@ theorem validate_total {H : Type} [DecidableEq H] (hash : Witness.Bytes → H)
   · have := min_fee_total v.fee v.minfeeA v.minfeeB _ hr.a hr.b hsz
     cases h : FeeSize.checkMinFee v.fee v.minfeeA v.minfeeB (FeeSize.validatorSize v.parts) <;> simp_all [ofFee]
   · cases ha : v.alonzoEra
-    · have := collateral_balance_total v.conway v.legacyReturn v.collateralIns v.collateralReturn v.fee v.collateralPercentage
-        v.totalCollateral hr.collNonEmpty hr.collIns hr.collRet hr.fee hr.pct
+    · have := collateral_rule_total v.conway v.legacyReturn v.maxCollateralInputs v.collateralIns v.collateralReturn v.fee
+        v.collateralPercentage v.totalCollateral hr.collIns hr.collRet hr.fee hr.pct
       simp only [Bool.false_eq_true, if_false]
-      cases h : PhaseOneArith.collateralBalance v.conway v.legacyReturn v.collateralIns v.collateralReturn v.fee v.collateralPercentage v.totalCollateral <;> simp_all [ofColl]
+      cases h : PhaseOneArith.collateralRule v.conway v.legacyReturn v.maxCollateralInputs v.collateralIns v.collateralReturn v.fee v.collateralPercentage v.totalCollateral <;> simp_all [ofColl]
     · have := collateral_alonzo_total v.fee v.collateralPercentage hr.fee hr.pct v.collateralIns hr.collIns
       simp only [if_true]
       cases h : PhaseOneArith.collateralAlonzo v.fee v.collateralPercentage v.collateralIns <;> simp_all [ofColl]
